@@ -236,6 +236,49 @@ def bracket_string(texts):
     return "".join(BR.get(t, ".") for t in texts)
 
 
+TOK = re.compile(r"[A-Za-z_0-9]+|\S")
+
+
+def int_types_correspondence(ctx, exe, sc, thorough):
+    """model of change_int_types() (IntTypes.lean, theorem IntTypes_only_int_edited) = the binary, token for token, on the universe of
+    vlib/inttycheck.py under every listed setting of the nine options"""
+    from vlib import inttycheck as itc
+    lines, pp = itc.universe(ctx.rng)
+    text, toks = itc.render(lines, pp)
+    sets = itc.settings(ctx.rng, 200 if thorough else 40)
+    flat_in = [w for ln in toks for w, _ in ln]
+
+    def one(k):
+        rc, out = itc.run_real(exe, text, sets[k], sc.dir, "k%d" % k)
+        return rc, TOK.findall(out)
+    res = common.pmap(one, list(range(len(sets))))
+    reqs = []
+    flat = " ".join("%s%s" % (w, "@" if p else "") for ln in toks for w, p in ln)
+    for st in sets:
+        reqs.append("intty.run %s %s" % (itc.digits(st), flat))
+    model = common.run_driver(reqs)
+    bad = 0
+    for st, (rc, real), m in zip(sets, res, model):
+        ctx.case("intty:%s" % sorted(st.items()), nontrivial=True)
+        ctx.count("intty:settings")
+        mt = m.split()
+        if rc != 0 or real != mt:
+            bad += 1
+            if bad <= 3:
+                i = next((x for x in range(min(len(real), len(mt))) if real[x] != mt[x]), min(len(real), len(mt)))
+                ctx.violation("change_int_types(): the binary and the model (IntTypes.lean) differ under %s at output token %d: binary ...%s, model ...%s (exit %s)"
+                              % ({k: v for k, v in st.items() if v != "ignore"}, i, " ".join(real[max(0, i - 6):i + 4]), " ".join(mt[max(0, i - 6):i + 4]), rc),
+                              {"options": st, "input_text_head": text[:400], "how": "vlib/inttycheck.py universe(); uncrustify -q -c cfg -l C -f file; tokens compared with `intty.run` of uncdrv",
+                               "binary_tokens": real[max(0, i - 12):i + 8], "model_tokens": mt[max(0, i - 12):i + 8]}, key=None, found_input=True)
+        # the theorem's statement on the real tokens
+        if rc == 0 and [w for w in real if w != "int"] != [w for w in flat_in if w != "int"]:
+            ctx.violation("change_int_types(): the binary's output differs from its input in tokens other than `int` under %s" % st,
+                          {"options": st, "how": "strike `int` from input and output of the universe file"}, key=None, found_input=True)
+            bad += 1
+    ctx.oblige("correspondence: change_int_types() model = binary, token for token (%d settings x %d lines, %d tokens)"
+               % (len(sets), len(toks), len(flat_in)), bad == 0, "corr", "%d settings differ" % bad)
+
+
 def run(ctx):
     ctx.cov["rule"] = ("one case = one run of the hook build on (input, configuration): input = generated C/C++/Java program plus a fixed block of "
                        "constructs the mod_ options act on, or a corpus file; configuration = one mod_ option singly, a random combination of "
@@ -268,6 +311,13 @@ def run(ctx):
     reg = optreg.registry()
     mods = [k for k in reg if k.startswith("mod_")]
     sc = pipeline.Scratch("c04")
+    common.lean_extra(ctx, "UncModel.Props.IntTypes", ["IntTypes_only_int_edited", "IntTypes_untouched_without_keywords",
+                                                        "IntTypes_preproc_boundary_witness"], namespace="Unc.IntTy")
+    try:
+        int_types_correspondence(ctx, exe, sc, thorough)
+    except Exception as e:
+        import traceback
+        ctx.oblige("change_int_types correspondence ran", False, "internal", traceback.format_exc()[-1500:])
     try:
         inputs = []
         for i in range(40 if thorough else 10):
